@@ -23,16 +23,23 @@ let str_opt = function None -> "_" | Some x -> hex_of_n x
 
 (* per-topology cache: consecutive lines share nodes/ring/pre *)
 let cache_key = ref ""
-let cache : ((n -> n option) * (n -> n option) * n ring * strategy list) option ref = ref None
+let cache : ((n -> n option) * (n -> n option) * n ring * strategy list * (n -> (n * n) option)) option ref = ref None
 
 let topo nodes_s ring_s pre_s =
   let key = nodes_s ^ " " ^ ring_s ^ " " ^ pre_s in
   (match !cache with
    | Some _ when !cache_key = key -> ()
    | _ ->
-     let nodes = List.map (fun e -> match String.split_on_char '.' e with
-         | [i; d; r] -> (n_of_hex i, opt_n d, opt_n r)
+     let parse_sharder x = if x = "_" then None else
+         (match String.split_on_char '-' x with
+          | [nr; msb] -> Some (n_of_hex nr, n_of_hex msb)
+          | _ -> failwith "bad sharder") in
+     let nodes4 = List.map (fun e -> match String.split_on_char '.' e with
+         | [i; d; r] -> (n_of_hex i, opt_n d, opt_n r, None)
+         | [i; d; r; sh] -> (n_of_hex i, opt_n d, opt_n r, parse_sharder sh)
          | _ -> failwith "bad node") (split_on ',' nodes_s) in
+     let nodes = List.map (fun (i, d, r, _) -> (i, d, r)) nodes4 in
+     let shl = List.map (fun (i, _, _, sh) -> (i, sh)) nodes4 in
      let dcl = List.map (fun (i, d, _) -> (i, d)) nodes and rkl = List.map (fun (i, _, r) -> (i, r)) nodes in
      let entries = if ring_s = "-" then [] else List.map (fun e ->
          let k = String.rindex e '.' in
@@ -42,13 +49,55 @@ let topo nodes_s ring_s pre_s =
      let raw = List.concat_map (fun (i, _, _) -> List.filter (fun (_, j) -> j = i) entries) nodes in
      let g = sort_ring raw in
      let pre = if pre_s = "-" then [] else List.map parse_strat (String.split_on_char ';' pre_s) in
-     cache := Some (assoc_opt dcl, assoc_opt rkl, g, pre); cache_key := key);
+     cache := Some (assoc_opt dcl, assoc_opt rkl, g, pre, assoc_pair shl); cache_key := key);
   match !cache with Some c -> c | None -> assert false
 
 let verdict case impl =
   match case with
+  | ["T"; nodes_s; ring_s; tabs_s; dc_s; tok_s] ->
+    (* tablet-backed set: C15's tablet map model + Model/TabletSets.v views *)
+    let nodes = List.map (fun e -> match String.split_on_char '.' e with
+        | i :: d :: _ -> (n_of_hex i, opt_n d)
+        | _ -> failwith "bad node") (split_on ',' nodes_s) in
+    ignore ring_s;
+    let known = List.map (fun (i, d) -> { host = i; gen = N0; ndc = d }) nodes in
+    let tt = List.fold_left (fun acc tb ->
+        match acc, String.split_on_char ':' tb with
+        | Some tt, [f; l; reps] ->
+          let raw = if reps = "-" then [] else List.map (fun e -> match String.split_on_char '.' e with
+              | [h; sh] -> (n_of_hex h, n_of_hex sh) | _ -> failwith "bad replica") (String.split_on_char '+' reps) in
+          add_tablet tt (from_raw_tablet (z_of_hex f) (z_of_hex l) raw known)
+        | _, _ -> None) (Some tt_empty) (if tabs_s = "-" then [] else String.split_on_char ';' tabs_s) in
+    (match tt with
+     | None -> if impl = ["panic"] then "ok" else "diff model: add_tablet panics"
+     | Some tt ->
+       let s = ts_for tt.tt_list (z_of_hex tok_s) (opt_n dc_s) in
+       let pr (h, sh) = hex_of_n h ^ ":" ^ hex_of_n sh in
+       let po = function Some x -> pr x | None -> "_" in
+       let j l = if l = [] then "-" else String.concat "," l in
+       let len = int_of_nat (ts_len s) in
+       let iter = ts_iter s in
+       let seq = [TNext; TNth (nat_of_int 1); TNext; TNth (nat_of_int 0); TNth (nat_of_int 2); TNext] in
+       let m = [ Printf.sprintf "%x" len; j (List.map pr iter);
+                 j (List.init (len + 2) (fun k -> po (ts_nth s (nat_of_int k))));
+                 j (List.init len (fun k -> po (ts_choose s (nat_of_int k))));
+                 j (List.map pr (ts_ordered s));
+                 j (List.map (fun (o, (lo, hi)) -> Printf.sprintf "%s@%x:%x" (po o) (int_of_nat lo) (int_of_nat hi)) (ts_run s seq O)) ] in
+       if impl = m then "ok"
+       else (match impl with
+           | [olen; oiter; onth; ochoose; oord; _] ->
+             (* the property on the implementation's own views: they describe one list *)
+             let it = if oiter = "-" then [] else split_on ',' oiter in
+             let consistent =
+               int_of_string ("0x" ^ olen) = List.length it
+               && oord = oiter
+               && (split_on ',' onth |> List.mapi (fun k v -> v = (match List.nth_opt it k with Some x -> x | None -> "_")) |> List.for_all (fun b -> b))
+               && (ochoose = "-" || List.for_all (fun x -> List.mem x it) (split_on ',' ochoose)) in
+             (if consistent then "diff" else "viol views") ^ " tablet-set model: " ^ String.concat " " m
+           | ["panic"] -> "viol panic"
+           | _ -> "error bad-impl-output"))
   | ["Q"; nodes_s; ring_s; pre_s; strat_s; dc_s; tok_s] ->
-    let (dcf, rackf, g, pre) = topo nodes_s ring_s pre_s in
+    let (dcf, rackf, g, pre, sharderf) = topo nodes_s ring_s pre_s in
     let strat = parse_strat strat_s and dc = opt_n dc_s and t = z_of_hex tok_s in
     let s = replicas_for dcf rackf g pre t strat dc in
     let m_len = int_of_nat (rs_len dcf g s) in
@@ -62,8 +111,11 @@ let verdict case impl =
                  [INth (nat_of_int 0); INth (nat_of_int 0); INext; INth (nat_of_int 3); INext];
                  [INext; INext; INth (nat_of_int 5); INext; INth (nat_of_int 0)] ] in
     let m_ops = List.map (fun sq -> rs_run dcf rackf g pre t s sq) seqs in
+    let hint_s (lo, hi) = Printf.sprintf "%x:%x" (int_of_nat lo) (int_of_nat hi) in
+    let m_hints = String.concat "/" (List.map (fun sq -> String.concat "," (List.map hint_s (rs_run_hints dcf rackf g pre t s sq))) seqs) in
+    let m_ohint = hint_s (rs_ordered_hint dcf rackf g pre t s) in
     (match impl with
-     | [len; iter; nth; choose; cf; ordered; ep; np; ops] ->
+     | [len; iter; nth; choose; cf; ordered; ep; np; ops; sh; osh; hints; ohint] ->
        let o_len = int_of_string ("0x" ^ len) and o_iter = ids_of iter and o_np = ids_of np in
        let o_nth = List.map opt_n (split_on ',' nth) in
        let exact = String.length choose > 0 && choose.[0] = 'E' in
@@ -84,7 +136,12 @@ let verdict case impl =
              | None -> not (List.exists (fun x -> int_of_n x mod 2 = 1) m_iter))
          && (match o_ord with Some l -> m_left = [] && l = m_ord | None -> m_left <> [])
          && (match o_ep with Some l -> l = m_iter | None -> true)
-         && o_np = m_np && o_ops = m_ops in
+         && o_np = m_np && o_ops = m_ops
+         (* with_computed_shard: C04_shards *)
+         && sh = string_of_nlist (List.map snd (with_shards sharderf t m_iter))
+         (* size_hint in every visited iterator state: C04_size_hint *)
+         && hints = m_hints && ohint = m_ohint
+         && (osh = "panic" || osh = string_of_nlist (List.map snd (with_shards sharderf t m_ord))) in
        (* model agrees: the theorems of Props/C04.v give the property (C04_placement_model,
           C04_views_*, C04_ordered_model, C04_views_ops, C04_precomputed_any) *)
        if agree then "ok" else
